@@ -221,6 +221,8 @@ impl Prop for C10 {
             GenSpec::random("byte-flips", tier.pick(200, 10_000)),
             GenSpec::random("noise", tier.pick(200, 10_000)),
             GenSpec::enumerated("scaling", tier.pick(8, 11)),
+            // interpreter-sized cases for the Miri leg (tools/legs.sh runs them one by one through `lvh one`); not part of the native plan
+            GenSpec::random("miri-sample", 0),
         ]
     }
     fn run_case(&self, cx: &mut Cx) {
@@ -343,6 +345,23 @@ impl Prop for C10 {
                 cx.count_n("mutants_accepted", st.ok);
                 cx.count_n("mutants_rejected", st.err);
                 cx.sample(|| json!({"noise_inputs": 100}));
+            }
+            "miri-sample" => {
+                // three executions: a valid stream, a strict prefix of it, and one record-level fault
+                let (bytes, offs) = self.seed_stream(cx);
+                let mut st = Stats::default();
+                self.probe(cx, &bytes, false, "miri", &mut st);
+                let cut = cx.rng.usize(bytes.len());
+                self.probe(cx, &bytes[..cut], true, "miri", &mut st);
+                let i = cx.rng.usize(offs.len());
+                let mut v = bytes.clone();
+                match cx.rng.below(3) {
+                    0 => v[offs[i] + 1] = v[offs[i] + 1].wrapping_add(2),
+                    1 => v[offs[i] + 2] = cx.rng.below(0x3C) as u8,
+                    _ => { v[offs[i]] = 0; v[offs[i] + 1] = 4; }
+                }
+                self.probe(cx, &v, false, "miri", &mut st);
+                cx.nontrivial(crate::rt::prng::byteshash(&bytes));
             }
             "scaling" => {
                 // streams of 2^k elements: steps per byte must stay within the same budget at every size
